@@ -22,16 +22,21 @@ type modEntry struct {
 	freshOnly bool
 	allFields bool         // whole cell may change
 	fields    map[int]bool // otherwise: only these top-level struct fields
+	// when every write to an older cell goes through one of these local variables (Allocs made outside the
+	// region), only those cells change
+	allocRoots map[ssa.Value]bool
+	otherRoots bool
 }
 
 func newModset() *Modset {
 	return &Modset{cells: map[string]*modEntry{}, ghost: map[string]bool{}, keys: map[string]bool{}}
 }
 
-func (m *Modset) add(t types.Type, isMap, fresh bool) { m.addField(t, isMap, fresh, -1) }
+func (m *Modset) add(t types.Type, isMap, fresh bool) { m.addField(t, isMap, fresh, -1, nil) }
 
-// addField: field >= 0 restricts the write to that top-level field of a struct cell
-func (m *Modset) addField(t types.Type, isMap, fresh bool, field int) {
+// addField: field >= 0 restricts the write to that top-level field of a struct cell; root is the pointer the
+// written address is derived from (nil if unknown)
+func (m *Modset) addField(t types.Type, isMap, fresh bool, field int, root ssa.Value) {
 	t = types.Unalias(t)
 	var key string
 	if isMap {
@@ -41,8 +46,15 @@ func (m *Modset) addField(t types.Type, isMap, fresh bool, field int) {
 	}
 	e, ok := m.cells[key]
 	if !ok {
-		e = &modEntry{typ: t, isMap: isMap, freshOnly: true, fields: map[int]bool{}}
+		e = &modEntry{typ: t, isMap: isMap, freshOnly: true, fields: map[int]bool{}, allocRoots: map[ssa.Value]bool{}}
 		m.cells[key] = e
+	}
+	if !fresh {
+		if a, ok := root.(*ssa.Alloc); ok {
+			e.allocRoots[a] = true
+		} else {
+			e.otherRoots = true
+		}
 	}
 	if fresh {
 		// writes to cells allocated in the region never affect older cells: they do not widen the field set
@@ -63,8 +75,11 @@ func (m *Modset) union(o *Modset, calleeFreshStays bool) {
 	for k, e := range o.cells {
 		me, ok := m.cells[k]
 		if !ok {
-			me = &modEntry{typ: e.typ, isMap: e.isMap, freshOnly: true, fields: map[int]bool{}}
+			me = &modEntry{typ: e.typ, isMap: e.isMap, freshOnly: true, fields: map[int]bool{}, allocRoots: map[ssa.Value]bool{}}
 			m.cells[k] = me
+		}
+		if !e.freshOnly {
+			me.otherRoots = true // writes made by a callee: targets not tracked
 		}
 		me.freshOnly = me.freshOnly && e.freshOnly
 		me.allFields = me.allFields || e.allFields
@@ -149,7 +164,7 @@ func (eng *Engine) instrMods(fn *ssa.Function, ins ssa.Instruction, region map[*
 		if _, isStruct := cell.Underlying().(*types.Struct); !isStruct || isTimeTime(cell) {
 			ff = -1
 		}
-		m.addField(cell, false, isFreshRoot(root, region), ff)
+		m.addField(cell, false, isFreshRoot(root, region), ff, root)
 	case *ssa.Alloc:
 		elem := x.Type().Underlying().(*types.Pointer).Elem()
 		if arr, ok := elem.Underlying().(*types.Array); ok {
